@@ -51,10 +51,13 @@ def rule_ownership(run, prog):
     run.ob("R-9.1", "lexer/lexer.py::Lexer::position-state-writers", not bad,
            "lexer position state written outside __init__/pop/get_next_token: " + ", ".join(f"{f.key}:{n.lineno}" for f, n in bad),
            bad[0][1] if bad else None, writers=sorted({f.key for f, _, _ in st}))
+    seen_in = {}
     for fn, n, t in _stores(prog, {"pos"}):
         if fn.mod.rel == "lexer/tokens.py":
             continue
-        run.ob("R-9.1", f"{fn.key}::store[{text(t)}]", False,
+        # keyed by the function and the ordinal of the store in it (not by the name of the local that holds the token)
+        k = seen_in[fn.key] = seen_in.get(fn.key, 0) + 1
+        run.ob("R-9.1", f"{fn.key}::store[token.pos]" + (f"#{k}" if k > 1 else ""), False,
                f"{text(n)}: a token's position is overwritten after the lexer built it; every later diagnostic on the "
                f"same token is reported at the wrong place", n)
     hs = [(f, n, t) for f, n, t in _stores(prog, {"lineno", "column"}) if not (f.name in ("__init__", "__post_init__"))]
@@ -439,3 +442,5 @@ def check(run, prog):
     rule_position_caches(run, prog, "R-9.8")
     from .c03_comment_layout import rule_comment_layout
     rule_comment_layout(run, prog, "R-9.9")
+    from .c03_comment_layout import rule_literal_layout
+    rule_literal_layout(run, prog, "R-9.10")
